@@ -16,7 +16,7 @@ def work(job):
     k, idx = job
     m = importlib.import_module(f"props.C{k:02d}")
     it = m.proof_items()[idx]
-    r = proof.prove_contract(it.contract, m.registry(), "quick", it.call)
+    r = proof.prove_contract(it.contract, it.registry() if it.registry else m.registry(), "quick", it.call)
     return it.contract.qualname, r["rung"], (r.get("info") or {}).get("sha256"), sorted({x["name"] for x in r["results"] if x["status"] == "proved"})
 
 
